@@ -812,7 +812,7 @@ def nontrivial(case, data):
     return False
 
 
-_AS_CAP = 8 << 30
+_AS_CAP = 3 << 30    # 16 workers x 3 GiB stays below the memory of the machine (a worker killed by the kernel would be lost silently)
 _as_capped = []
 
 
